@@ -103,7 +103,7 @@ func init() {
 		return strings.Join(out, ",")
 	}
 	register(&Prop{ID: "C09", Gen: genC09, Oracle: oracleC09,
-		Rule: "record sequences of length 0-64 (thorough 0-400) with synthetic, random and adversarial contents (records that look like interior nodes 0x01||h||h, empty, duplicates): whole store after one-at-a-time appends, tree hash for every m<=n (and m>n: reader error); (level, offset) coordinates up to 2^40 and boundary probes near 2^61/2^62 for index/split/count; tree heads, records, hashes and JSON through their text codecs: valid, one mutation from valid, boundary (int64 edges, leading zeros, signs, 1e6 length, CR/LF inside base64, non-canonical trailing bits, invalid UTF-8, control characters, blank lines) and random; non-trivial = a well-formed input or one mutation from one; distinct by op line"})
+		Rule: "record sequences of length 0-64 (thorough 0-400) with synthetic, random and adversarial contents (records that look like interior nodes 0x01||h||h, empty, duplicates): whole store after one-at-a-time appends, tree hash for every m<=n (and m>n: reader error); (level, offset) coordinates up to 2^40 and boundary probes near 2^61/2^62 for index/split/count; the int64 edge of the layout: for every level 0..62 the offsets 2^(62-level)-{2,1} (the last coordinates whose position fits: positions 2^63-64..2^63-2), (0,2^62) -> MaxInt64, every position 2^63-2-k (k<200; not MaxInt64 itself, observation O11), sizes 2^62-{2,1,0}; tree heads, records, hashes and JSON through their text codecs: valid, one mutation from valid, boundary (int64 edges, leading zeros, signs, 1e6 length, CR/LF inside base64, non-canonical trailing bits, invalid UTF-8, control characters, blank lines) and random; non-trivial = a well-formed input or one mutation from one; distinct by op line"})
 }
 
 func c09RandBytes(r *Rand, n int) string {
@@ -393,6 +393,7 @@ func genC09(g *Gen, n int) {
 	g.Emit("tlog.sha256 "+hx("abc"), true, "sha")
 	g.Emit("tlog.storedhashes _", true, "store")
 	g.Emit("tlog.treehash 0 _", true, "treehash")
+	genC09Edge(g) // the int64 edge of the layout: top offsets of every level 0..62, positions up to 2^63-2 (util_c09edge.go)
 	for _, L := range c09Lens { // every boundary length: leaf hash, a log containing such records, its tree hash
 		d := c09RandBytes(g.Rand, L)
 		g.Emit("tlog.recordhash "+hx(d), true, "leaf-boundary")
@@ -559,6 +560,8 @@ func oracleC09(g *Gen, n int) {
 	if thorough {
 		maxLen = 700
 	}
+	// (00) the int64 edge of the layout against the first-principles formula (util_c09edge.go; deterministic)
+	c09EdgeOracle(g)
 	// (0) every boundary length: leaf hash, near-miss pairs, and a small log containing such a record
 	var sweep [][]string
 	for _, L := range c09Lens {
